@@ -24,9 +24,24 @@ class Worker:
         if not line or 'ready' not in line:
             raise HarnessError(f'worker {self.cmd[1]} failed to start')
 
+    TIMEOUT = 60.0      # seconds of wall time for one request
+
     def ask(self, req):
+        import select
         self.proc.stdin.write(json.dumps(req) + '\n')
         self.proc.stdin.flush()
+        # one line per request, nothing is buffered between requests: the
+        # descriptor becomes readable when the reply (or EOF) arrives
+        ready, _, _ = select.select([self.proc.stdout], [], [], self.TIMEOUT)
+        if not ready:
+            # the library never came back (livelock / deadlock outside the
+            # simulation's own deadlock detection): not a harness error
+            self.proc.kill()
+            self.proc.wait()
+            self.start()
+            return {'error': f'no reply within {self.TIMEOUT:.0f} s of wall '
+                             'time: the run does not terminate',
+                    'hang': True, 'sc3_origin': 'hang'}
         line = self.proc.stdout.readline()
         if not line:
             raise HarnessError(f'worker {self.cmd[1]} died')
